@@ -99,6 +99,41 @@ class World:
         def objs(key="xs"):
             return [U[j] for j in op[key]]
 
+        def operand(key="xs"):
+            """The right operand in the shape the operation asks for: (object handed to the DictList, its contents as a plain list)."""
+            shape = op.get("as", "list")
+            if shape == "self":
+                return dl, list(before)
+            if shape == "selfslice":
+                sl_ = slice(op.get("a"), op.get("b"))
+                return dl[sl_], list(before[sl_])
+            lst = objs(key)
+            if shape == "dictlist":
+                if len({o.id for o in lst}) != len(lst):
+                    keep, seen = [], set()
+                    for o in lst:  # a DictList cannot hold an id twice: first occurrence wins
+                        if o.id not in seen:
+                            seen.add(o.id)
+                            keep.append(o)
+                    lst = keep
+                return self.DictList(lst), lst
+            if shape == "iter":
+                return iter(lst), lst
+            if shape == "raising_iter":
+                def gen():
+                    for j, o in enumerate(lst):
+                        if j == op.get("after", 0):
+                            raise RuntimeError("iterable fails part-way")
+                        yield o
+                    raise RuntimeError("iterable fails at its end")
+
+                stats["probe:operand_iterable_raises"] += 1
+                return gen(), "raises"
+            if shape == "bad_entry":
+                stats["probe:operand_entry_without_id"] += 1
+                return lst + [5], "raises"
+            return lst, lst
+
         raised = None
         try:
             if k == "append":
@@ -109,11 +144,13 @@ class World:
                 new_ref.insert(op["i"], U[op["x"]])
                 dl.insert(op["i"], U[op["x"]])
             elif k == "extend":
-                new_ref = before + objs()
-                dl.extend(objs())
+                other, oth_list = operand()
+                new_ref = before + oth_list if oth_list != "raises" else "raises"
+                dl.extend(other)
             elif k == "iadd":
-                new_ref = before + objs()
-                dl += objs()
+                other, oth_list = operand()
+                new_ref = before + oth_list if oth_list != "raises" else "raises"
+                dl += other
                 if dl is not self.dl:
                     raise Violation("content", {"what": "+= returned another list"})
             elif k == "isub":
@@ -188,9 +225,29 @@ class World:
                 new_ref = [r for r in before if r.id != op["id"]] if any(r.id == op["id"] for r in before) else "raises"
                 dl.remove(op["id"])
             elif k == "sort":
-                keyf = {"id": None, "rev": (lambda o: o.id[::-1]), "name": (lambda o: o.name)}[op.get("key", "id")]
-                new_ref = sorted(before, key=keyf or (lambda o: o.id), reverse=op.get("reverse", False))
-                dl.sort(key=keyf, reverse=op.get("reverse", False))
+                if op.get("key") == "fails":
+                    # a key function whose keys cannot all be compared: list.sort may leave the list in any order, so "unchanged" cannot
+                    # be demanded - the same elements must still be there and every one of them must be found where it now is
+                    bad = U[op["bad"]]
+
+                    def keyf(o):
+                        # an unorderable key (list.sort computes all keys first, so a key function that itself raises changes
+                        # nothing; a comparison that fails half-way leaves the list partly reordered)
+                        return 5 if o is bad else o.id
+
+                    try:
+                        dl.sort(key=keyf, reverse=op.get("reverse", False))
+                        new_ref = sorted(before, key=lambda o: o.id, reverse=op.get("reverse", False))
+                    except TypeError:
+                        stats["probe:sort_key_raised"] += 1
+                        now = list(list.__iter__(dl))
+                        if sorted(map(id, now)) != sorted(map(id, before)):
+                            raise Violation("content", {"what": "sort with a failing key function lost or duplicated elements"})
+                        new_ref = now
+                else:
+                    keyf = {"id": None, "rev": (lambda o: o.id[::-1]), "name": (lambda o: o.name)}[op.get("key", "id")]
+                    new_ref = sorted(before, key=keyf or (lambda o: o.id), reverse=op.get("reverse", False))
+                    dl.sort(key=keyf, reverse=op.get("reverse", False))
             elif k == "reverse":
                 new_ref = before[::-1]
                 dl.reverse()
@@ -230,15 +287,27 @@ class World:
                 self.coherent(r, before[sl], "slice result")
             elif k == "binadd":
                 new_ref = before
-                exp = before + objs()
-                r = dl + objs()
-                if len({o.id for o in exp}) == len(exp):
-                    self.coherent(r, exp, "+ result")
+                other, oth_list = operand()
+                if oth_list == "raises":
+                    r = dl + other
+                    raise Violation("content", {"what": "+ accepted an iterable that raises / an entry without identifier", "operand": op.get("as")})
+                exp = before + oth_list
+                r = dl + other
+                # the operand may be a plain list, another DictList, this very list or a slice of it: whatever it is, a result
+                # that carries one identifier twice cannot be coherent - the call has to refuse it (plain list + unique ids)
+                if len({o.id for o in exp}) != len(exp):
+                    raise Violation("unique", {"what": "+ returned a list with a duplicate id", "ids": [o.id for o in exp], "operand": op.get("as", "list")})
+                self.coherent(r, exp, "+ result")
+                if isinstance(other, self.DictList):
+                    self.coherent(other, oth_list, "right operand of + (must be unaffected)")
             elif k == "binsub":
                 new_ref = before
-                r = dl - objs()
-                exp = [o for o in before if all(o is not x for x in objs())]
+                other, oth_list = operand()
+                r = dl - other
+                exp = [o for o in before if all(o is not x for x in oth_list)]
                 self.coherent(r, exp, "- result")
+                if isinstance(other, self.DictList):
+                    self.coherent(other, oth_list, "right operand of - (must be unaffected)")
             elif k == "query":
                 new_ref = before
                 if op.get("attr"):
@@ -358,6 +427,15 @@ def _gen_op(rng, w, kinds, weights):
         op.update(i=idx(), x=x())
     elif k in ("extend", "iadd", "union", "binadd", "binsub"):
         op["xs"] = xs()
+        if k in ("extend", "iadd", "binadd") and rng.random() < 0.12:
+            # the iterable itself fails part-way, or one of its entries is not an identified object: nothing may stick
+            op["as"] = rng.choice(["raising_iter", "bad_entry"])
+            op["after"] = rng.randint(0, 3)
+        elif k != "union" and rng.random() < 0.4:
+            # the operand as another DictList, as a one-shot iterator, as this very list or as a slice of it
+            op["as"] = rng.choice(["dictlist", "dictlist", "self", "selfslice", "iter"] if k in ("binadd", "binsub") else ["dictlist", "iter", "self", "selfslice"])
+            if op["as"] == "selfslice":
+                op.update(a=rng.choice([None, idx()]), b=rng.choice([None, idx()]))
     elif k == "isub":
         op["xs"] = [rng.choice([x(), rng.choice(ALPHABET)]) for _ in range(rng.randint(0, 2))]
         if n and rng.random() < 0.6:  # bias towards present elements
@@ -383,6 +461,8 @@ def _gen_op(rng, w, kinds, weights):
         op["id"] = rng.choice(ALPHABET)
     elif k == "sort":
         op.update(key=rng.choice(["id", "id", "rev", "name"]), reverse=rng.random() < 0.5)
+        if rng.random() < 0.15:
+            op.update(key="fails", bad=x())
     elif k == "pickle":
         op["proto"] = rng.choice([0, 2, 4, 5])
     elif k == "query":
@@ -416,6 +496,7 @@ def _state_digest(w):
 def _execute(trace, stats, gen=None, verbose=False):
     """Execute a trace; if `gen` is given, ops are generated (and recorded) step by step."""
     res = RunResult()
+    res.stats = stats
     res.trace = trace
     w = World(trace["cfg"])
     step_digests = []
